@@ -97,7 +97,10 @@ def ratform(t, cache=None):
 
 
 def som(t):
-    return z3.simplify(t, som=True, som_blowup=SOM_BLOWUP)
+    try:
+        return z3.simplify(t, som=True, som_blowup=SOM_BLOWUP)
+    except z3.Z3Exception as e:  # the rewriter ran out of memory on a huge normal form: never a verdict
+        raise Abort("resource", f"z3 rewriter: {e}")
 
 
 def cross_diff(a, b, cache=None):
